@@ -155,14 +155,18 @@ class GroupOutput(PartFlowController):
 
     def give_part(self, part):
         try:
-            last_entered_group = part._group_pathing[-1]
+            # The part leaves this Group before it is offered downstream:
+            # a downstream GroupPath that accepts the part records itself
+            # on top of _group_pathing and a Group further out must see
+            # its own GroupPath there.
+            last_entered_group = part._group_pathing.pop()
         except IndexError:
             raise RuntimeError(f'Part {part.name} is trying to exit Group {self._group.name}'
                                +f' but does not contain information on which GroupPath to use.')
 
         did_pass = last_entered_group._pass_part_downstream(part)
-        if did_pass:
-            part._group_pathing.pop()
+        if not did_pass:
+            part._group_pathing.append(last_entered_group)
         return did_pass
 
     def _add_downstream(self, downstream):
